@@ -392,10 +392,10 @@ Definition ex_nm : named :=
   [(cn_Interface, 0%N); (cn_IRequest, 1%N); (cn_Exception, 6%N); (cn_HTTPNotFound, 8%N); (cn_HTTPForbidden, 9%N);
    (cn_IExceptionResponse, 10%N); (cn_WebobWSGIHTTPException, 11%N)].
 Definition ex_decls : list vdecl :=
-  [mkDecl DExcView (Some 7%N) false true (mkArgs 1%N 0%N [] [] None false 3%N) 0%N (mkBody true ARet false);
+  [mkDecl DExcView (Some 7%N) false true (mkArgs 1%N 0%N [] [] None false 3%N) 0%N (mkBody true ARet false) None false;
    mkDecl DExcView None false false (mkArgs 1%N 0%N [] [(nm_xhr, [(false, VBool true)])] None false 4%N) 0%N
-          (mkBody false ARet false);
-   mkDecl DView None false false (mkArgs 1%N 0%N [] [] None false 5%N) 0%N (mkBody true (ARaise 0%N) false)].
+          (mkBody false ARet false) None false;
+   mkDecl DView None false false (mkArgs 1%N 0%N [] [] None false 5%N) 0%N (mkBody true (ARaise 0%N) false) None false].
 Definition ex_regs14 : list reg := Eval vm_compute in regs_upto spec_params pred_names ex_nm ex_decls 0%N.
 Definition ex_nf (i : N) : exc := mkExc i [8; 10; 6; 0]%N [cn_Exception; cn_HTTPNotFound] 404%N.
 Definition ex_fb (i : N) : exc := mkExc i [9; 10; 6; 0]%N [cn_Exception; cn_HTTPForbidden] 403%N.
@@ -403,7 +403,7 @@ Definition ex_excs : list exc :=
   [mkExc 0%N [7; 6; 0]%N [cn_Exception] 0%N; ex_nf 1000%N; ex_nf 1001%N; ex_nf 1010%N; ex_nf 1011%N; ex_nf 1020%N;
    ex_nf 1021%N; ex_fb 1013%N; ex_fb 1023%N].
 Definition ex_W : world :=
-  mkWorld (register_all accept_order_default ex_regs14) (bodies_of spec_params ex_nm ex_decls) ex_excs.
+  mkWorld (register_all accept_order_default ex_regs14) (bodies_of spec_params ex_nm ex_decls) ex_excs true false.
 Definition ex_ri : rinfo :=
   mkRI (mkReq rm_get [] [] false None false [47%N] [([], [])] true [] [] [] [1; 0]%N [12; 0]%N [])
        None [1; 0]%N [1; 0]%N false None UPass None.
@@ -451,11 +451,11 @@ Qed.
    (finding C14-permissive-skips-predicates). *)
 Definition rf_decls : list vdecl :=
   [mkDecl DView (Some 7%N) true true (mkArgs 1%N 0%N [] [(nm_xhr, [(false, VBool true)])] None true 3%N) 0%N
-          (mkBody false ARet true);
-   mkDecl DView None false false (mkArgs 1%N 0%N [] [] None false 5%N) 0%N (mkBody false (ARaise 0%N) false)].
+          (mkBody false ARet true) None false;
+   mkDecl DView None false false (mkArgs 1%N 0%N [] [] None false 5%N) 0%N (mkBody false (ARaise 0%N) false) None false].
 Definition rf_regs : list reg := Eval vm_compute in regs_upto spec_params pred_names ex_nm rf_decls 0%N.
 Definition rf_W : world :=
-  mkWorld (register_all accept_order_default rf_regs) (bodies_of spec_params ex_nm rf_decls) ex_excs.
+  mkWorld (register_all accept_order_default rf_regs) (bodies_of spec_params ex_nm rf_decls) ex_excs true false.
 Definition rf_ri : rinfo :=
   mkRI (mkReq rm_get [] [] false None false [47%N] [([], [])] true [] [] [] [1; 0]%N [12; 0]%N [])
        None [1; 0]%N [1; 0]%N false None (UCatch false false false None) None.
@@ -528,12 +528,12 @@ Qed.
 (* non-vacuity of the override case: the second declaration has the slot and predicates of the first; the key
    check passes, keys are NOT distinct, and the later view renders *)
 Definition ov_decls : list vdecl :=
-  [mkDecl DExcView (Some 7%N) false true (mkArgs 1%N 0%N [] [] None false 3%N) 0%N (mkBody false ARet false);
-   mkDecl DExcView (Some 7%N) false true (mkArgs 1%N 0%N [] [] None false 4%N) 0%N (mkBody false ARet false);
-   mkDecl DView None false false (mkArgs 1%N 0%N [] [] None false 5%N) 0%N (mkBody false (ARaise 0%N) false)].
+  [mkDecl DExcView (Some 7%N) false true (mkArgs 1%N 0%N [] [] None false 3%N) 0%N (mkBody false ARet false) None false;
+   mkDecl DExcView (Some 7%N) false true (mkArgs 1%N 0%N [] [] None false 4%N) 0%N (mkBody false ARet false) None false;
+   mkDecl DView None false false (mkArgs 1%N 0%N [] [] None false 5%N) 0%N (mkBody false (ARaise 0%N) false) None false].
 Definition ov_regs : list reg := Eval vm_compute in regs_upto spec_params pred_names ex_nm ov_decls 0%N.
 Definition ov_W : world :=
-  mkWorld (register_all accept_order_default ov_regs) (bodies_of spec_params ex_nm ov_decls) ex_excs.
+  mkWorld (register_all accept_order_default ov_regs) (bodies_of spec_params ex_nm ov_decls) ex_excs true false.
 
 Example lookup_ok_overrides_nonvacuous :
   key_ok_b ov_regs = true /\ ~ NoDup (map key ov_regs)
